@@ -103,7 +103,7 @@ func policies(rep *kit.Report) {
 		}
 	}
 	rep.Set("hash_residue_coverage", "all residues of fnv32a(key) mod n, n=1..6, verified at run time")
-	pols := []string{"random", "least_conn", "round_robin", "ip_hash", "uri_hash", "header X-Key", "first", "header"} // (the last: no header named)
+	pols := []string{"random", "least_conn", "round_robin", "ip_hash", "uri_hash", "header X-Key", "first", "header", "header x-key"} // (header without a name; and the name written in lower case: field names are case-insensitive)
 	item := 0
 	for n := 1; n <= maxN; n++ {
 		var names []string
@@ -312,7 +312,7 @@ func policies(rep *kit.Report) {
 								}
 							}
 							switch pol {
-							case "ip_hash", "uri_hash", "header X-Key":
+							case "ip_hash", "uri_hash", "header X-Key", "header x-key":
 								if g1 != g2 {
 									return fmt.Sprintf("same key sent to backend %d then %d with unchanged availability", g1, g2)
 								}
@@ -755,7 +755,7 @@ func isolation(rep *kit.Report) {
 
 func main() {
 	rep := kit.NewReport("C05", "model_checking",
-		"policies: two blocks of one policy under every interleaving of 4+4 selections choose as they do alone; every pool of 1..N backends x every state vector over {up, partly, unhealthy, failed, full} x 7 policies x 16 keys (residue-covering), math/rand draws enumerated; retry: every assignment of {ok, refuse, fail-after-reading} to 1..3 backends x 7 policies x try_duration x max_fails x base path x body {0,1,70000} x framing, all schedules of the request thread and its timer goroutines up to 1 preemption under a virtual clock; distinct_nontrivial = outcome classes")
+		"policies: two blocks of one policy under every interleaving of 4+4 selections choose as they do alone; every pool of 1..N backends x every state vector over {up, partly, unhealthy, failed, full} x 9 policy lines (header policy also without a name and with its name in lower case) x 16 keys (residue-covering), math/rand draws enumerated; retry: every assignment of {ok, refuse, fail-after-reading} to 1..3 backends x 7 policies x try_duration x max_fails x base path x body {0,1,70000} x framing, all schedules of the request thread and its timer goroutines up to 1 preemption under a virtual clock; distinct_nontrivial = outcome classes")
 	kit.Init()
 	if !rep.IsWorker() {
 		rep.Assume("rand.Int() is modelled as a choice over {0,1}: the policies only test x % count == 0")
